@@ -14,7 +14,8 @@ VFILE = "Props/C13.v"
 
 
 def kw_for(ctx, hermitian, **over):
-    kw = dict(hermitian=hermitian, N=ctx.n(3, 4), max_blocks=3, max_size=ctx.n(2, 3), max_params=ctx.n(2, 3))
+    # the exact SymPy family is slow beyond total order 3 (minutes per case): order 4 only with float inputs
+    kw = dict(hermitian=hermitian, N=ctx.n(3, 4), N_sympy=3, max_blocks=3, max_size=ctx.n(2, 3), max_params=2)
     kw.update(over)
     return kw
 
@@ -30,14 +31,17 @@ def run_common(ctx, vfile, rels, what):
     ctx.tie("k_translator", k_translator.tie_translator)
     ctx.proof(vfile)
     ctx.tie("k_semeq", k_semeq.tie_semeq, hermitian=True)
-    per = ctx.n(10, 60)
-    ctx.oracle("o_relations[hermitian]", R.sweep, rels, per, kw_for(ctx, True), parallel=True)
-    ctx.oracle("o_relations[nonhermitian]", R.sweep, rels, ctx.n(6, 40), kw_for(ctx, False), parallel=True)
+    ctx.oracle("o_relations[hermitian]", R.sweep, rels, ctx.n(10, 50), kw_for(ctx, True), parallel=True)
+    ctx.oracle("o_relations[nonhermitian]", R.sweep, rels, ctx.n(6, 30), kw_for(ctx, False), parallel=True)
+    if not ctx.quick:
+        # three parameters and total order 4 on the fast exact-float families (dense / sparse numpy branches)
+        ctx.oracle("o_relations[hermitian,float,3 parameters]", R.sweep, rels, 40,
+                   kw_for(ctx, True, fmts=["dense", "sparse"], max_params=3), parallel=True)
 
     def search(c):
         out = []
         for herm in (True, False):
-            r = R.sweep(c, rels, 60, kw_for(c, herm, N=3, max_size=3, max_params=3), parallel=True)
+            r = R.sweep(c, rels, 40, kw_for(c, herm, N=3, max_size=3), parallel=True)
             out += r["failures"]
             if out:
                 break
